@@ -115,6 +115,9 @@ Eval vm_compute in (length cases, length (filter (fun c => negb (ok c)) cases)).
     # ---------------- real GHE objects
     gc = [{"nx": 2, "ny": 2, "months": 12, "H": 100.0, "heights": [60.0, 97.5, 135.0], "H_eval": h, "loads": {"kind": "balanced", "scale": 5000.0, "seed": 1},
            "pipe": p} for h, p in ((97.5, "SINGLEUTUBE"), (60.0, "COAXIAL"), (120.0, "DOUBLEUTUBEPARALLEL"))][: (2 if quick else 3)]
+    # the long-time table computed for another borehole radius than the simulated one (the correction is then not the identity)
+    gc += [{"nx": 2, "ny": 2, "months": 12, "H": 100.0, "heights": [60.0, 97.5, 135.0], "H_eval": h, "loads": {"kind": "balanced", "scale": 5000.0, "seed": 1},
+            "pipe": "SINGLEUTUBE", "rb": rs, "rb_table": rt} for h, rs, rt in ((97.5, 0.06, 0.075), (110.0, 0.09, 0.07))][: (1 if quick else 2)]
     from concurrent.futures import ThreadPoolExecutor
     with ThreadPoolExecutor(max_workers=NPROC) as ex:
         r3 = list(ex.map(lambda c: run_impl("gf_drv.py", {"mode": "ghe", "cases": [c]}, timeout=900), gc))
@@ -132,6 +135,12 @@ Eval vm_compute in (length cases, length (filter (fun c => negb (ok c)) cases)).
         if any(b <= a for a, b in zip(x, x[1:])):
             chk.violation("ghe-gfunction", c, {"x": x}, "the g-function used for simulation has a strictly increasing ln(t/ts) axis")
         nl = len(o["lts_t"])
+        # documented correction (Eskilson): g(r_b*) = g(r_b) - ln(r_b* / r_b), r_b the table's radius, r_b* the simulated borehole's
+        doc = [v - math.log(o["rb_sim"] / o["rb_table"]) for v in o["lts_raw"]]
+        nontrivial += 1
+        if max(abs(a - b) for a, b in zip(y[-nl:], doc)) > 1e-9:
+            chk.violation("ghe-gfunction", c, {"tail_y": y[-nl:][:4], "documented": doc[:4], "rb_table": o["rb_table"], "rb_simulated": o["rb_sim"]},
+                          "the long-time points carry the radius-corrected long-time values: g - ln(r_b*/r_b)")
         if x[-nl:] != o["lts_t"] or max(abs(a - b) for a, b in zip(y[-nl:], o["lts_corr"])) > 1e-12:
             chk.violation("ghe-gfunction", c, {"tail_x": x[-nl:][:4]}, "the long-time points carry the radius-corrected long-time values")
         ns = len(x) - nl
